@@ -24,7 +24,7 @@ package validation
 // an arbitrary predicate and signatures are arbitrary bytes; 1 = signatures are
 // honest ed25519.Sign outputs (by an arbitrary seed over this transaction's
 // signature hash, over the signature hash of a sibling transaction that
-// differs in one committed field, or over an arbitrary message) or short junk,
+// differs in one committed field (P2WPKH and 1-of-1 only), or over an arbitrary message) or short junk,
 // and Verify is true exactly on honest triples, so that every counterexample
 // replays natively.
 
@@ -42,11 +42,11 @@ package validation
 //verif:obligation fn=VerifC02P2WPKH args=2,0;1,0 nooverride=verifC02Verify validate=12 secs=3000 timeout=120000
 //verif:obligation fn=VerifC02P2WPKH args=2,1;0,1 validate=12 secs=3000 timeout=120000
 //verif:obligation fn=VerifC02P2WSH args=1,1,0,4,0;2,1,0,3,0;2,2,0,3,0 nooverride=verifC02Verify validate=10 secs=3000 timeout=120000
-//verif:obligation fn=VerifC02P2WSH args=1,1,0,4,1;2,1,0,3,1;2,2,0,1,1;2,2,2,1,1 validate=10 secs=3000 timeout=120000
+//verif:obligation fn=VerifC02P2WSH args=1,1,0,4,1;2,1,0,3,1;2,2,0,3,1;2,2,2,1,1 validate=10 secs=3000 timeout=120000
 //verif:obligation fn=VerifC02P2WPKH args=3,0 nooverride=verifC02Verify tier=thorough secs=3000 timeout=120000
 //verif:obligation fn=VerifC02P2WPKH args=3,1 tier=thorough secs=3000 timeout=120000
 //verif:obligation fn=VerifC02P2WSH args=2,2,0,4,0;2,2,1,3,0;3,2,0,3,0;3,3,0,1,0 nooverride=verifC02Verify tier=thorough secs=3000 timeout=120000
-//verif:obligation fn=VerifC02P2WSH args=1,1,1,1,1;2,2,0,3,1;3,2,0,1,1 tier=thorough secs=3000 timeout=120000
+//verif:obligation fn=VerifC02P2WSH args=1,1,1,1,1;2,2,1,3,1;3,2,0,3,1 tier=thorough secs=3000 timeout=120000
 
 import (
 	"bytes"
@@ -158,13 +158,16 @@ func verifC02SiblingSigHash(s *verifC02Spend, prog []byte) []byte {
 
 // a signature-shaped witness item. seeds: the committed keys' seeds (the signer
 // seed is arbitrary: the solver may make it equal to one of them or not)
-func verifC02SigItem(world int, s *verifC02Spend, prog []byte, sighash []byte) []byte {
+func verifC02SigItem(world int, s *verifC02Spend, prog []byte, sighash []byte, sibling bool) []byte {
 	if world == 0 {
 		return verifC02Shaped("sig", 63, 65)
 	}
 	kind := verifChoice("sig.kind", 4)
 	if kind == 3 {
 		return verifBytesN("sig.junk", 1)
+	}
+	if kind == 1 && !sibling {
+		verifAssume(false) // sibling-transaction signatures are explored for P2WPKH and 1-of-1 only
 	}
 	priv := ed25519.NewKeyFromSeed(verifBytesN("sig.seed", 32))
 	var msg []byte
@@ -204,7 +207,7 @@ func VerifC02P2WPKH(nArgs int, world int) {
 	}
 	var sig, pk []byte
 	if nArgs >= 2 {
-		sig = verifC02SigItem(world, s, prog, sighash)
+		sig = verifC02SigItem(world, s, prog, sighash, true)
 		args = append(args, sig)
 	}
 	if nArgs >= 1 {
@@ -276,7 +279,7 @@ func VerifC02P2WSH(nKeys int, quorum int, shape int, scriptKinds int, world int)
 	}
 	sigs := make([][]byte, nSigs)
 	for i := range sigs {
-		sigs[i] = verifC02SigItem(world, s, prog, sighash)
+		sigs[i] = verifC02SigItem(world, s, prog, sighash, nKeys == 1)
 		args = append(args, sigs[i])
 	}
 	var item []byte
